@@ -16,9 +16,10 @@ EXPLANATION = (
     "abstract trees (nesting <= 3, mixed branch kinds, fan-out <= 3) identically, children in their original order; "
     "(pair) every construction of Glob / Any pairs a tree with the program compiled from that same tree or moves an "
     "existing pair together (new, partition, into_owned, any); (route) FromStr = new + into_owned, TryFrom<&str> = new, "
-    "Display writes the stored expression of the tree.  Equality of behaviour as such is not computed; owned captures are "
-    "decided in C04.whole.")
-RULES = "C19.owned (TABLE on a catalogue: into_owned is the identity on trees), C19.kinds (TABLE), C19.order (EFFECT), C19.pair (PROV), C19.route (WHO), C08.bytes (EFFECT: the expression Display writes after a partition)"
+    "Display writes the stored expression of the tree; (text) the expression the parser stores is exactly the text it was "
+    "given, on the ~10 700 accepted texts of the parser catalogue (C01.parse), so Display + new parses the same text again.  "
+    "Equality of behaviour as such is not computed; owned captures are decided in C04.whole.")
+RULES = "C19.owned (TABLE on a catalogue: into_owned is the identity on trees), C19.kinds (TABLE), C19.order (EFFECT), C19.pair (PROV), C19.route (WHO), C19.text (TABLE on a text catalogue: stored expression = text parsed), C08.bytes (EFFECT: the expression Display writes after a partition)"
 
 
 def run(ctx):
@@ -34,6 +35,10 @@ def run(ctx):
     exhaust.report_query(F, R, "C19.owned", ctx.tier, "owned", 10000, 4000)
     from . import c08
     c08.rule_partition(F, R)   # Display writes the stored expression: after a partition it must be the text of the remaining tokens
+    from . import parsecat
+    # Display + new / FromStr / TryFrom: the text Display writes is the stored expression (C19.route); building it again
+    # gives the same glob only if the parser stores exactly the text it was given
+    parsecat.report(F, R, "C19.text", ctx.tier, ("expression",), 12000)
 
 
 def canon(v):
